@@ -30,6 +30,17 @@ def atoms_of(events):
     return out
 
 
+def canon_value(x):
+    """Structural identity of an atom / value in the JSON encoding: entries of maps and structs in one order."""
+    if isinstance(x, dict):
+        return json.dumps({k: canon_value(v) for k, v in sorted(x.items())})
+    if isinstance(x, list):
+        if len(x) == 2 and x[0] in ("map", "struct") and isinstance(x[1], list):
+            return json.dumps([x[0], sorted(canon_value(e) for e in x[1])])
+        return json.dumps([canon_value(e) for e in x])
+    return json.dumps(x)
+
+
 def attribute(ctx, hist, open_ids):
     """Known-finding attribution for a rejected store event (last event of hist)."""
     reset, bad = hist[0], hist[-1]
@@ -39,8 +50,23 @@ def attribute(ctx, hist, open_ids):
         atoms = atoms_of(hist)
         uniq = {json.dumps(a, sort_keys=True): a for a in atoms}
         cand = [subject] if subject else [a for a in uniq.values()]
-        p = ctx.run_vh(["hashcheck"], input_text=json.dumps(dict(present=list(uniq.values()), missing=cand)))
-        cols = [c for c in json.loads(p.stdout)["collisions"] if c]
+        # Atom.Hash() of every atom involved, asked of the library once per atom and run (thousands of rejected events
+        # share a few hundred atoms)
+        if not hasattr(ctx, "_hash_cache"):
+            ctx._hash_cache = {}
+        cache = ctx._hash_cache
+        need = {k: a for k, a in list(uniq.items()) + [(json.dumps(a, sort_keys=True), a) for a in cand] if k not in cache}
+        if need:
+            p = ctx.run_vh(["hashcheck"], input_text=json.dumps(dict(present=[], missing=list(need.values()))))
+            for k, h in zip(need.keys(), json.loads(p.stdout)["hashes"]):
+                cache[k] = h
+        cols = []
+        for a in cand:
+            ka = json.dumps(a, sort_keys=True)
+            for kb, b in uniq.items():
+                if canon_value(b) != canon_value(a) and cache[kb] == cache[ka]:
+                    cols.append((a, b))
+                    break
         if cols:
             return "F8 hash-keyed store (%s) conflates distinct atoms with equal Atom.Hash(), e.g. %s with %s" % (
                 kind, evalfam.fact_str(cols[0][0]), evalfam.fact_str(cols[0][1]))
